@@ -247,6 +247,9 @@ def cases_murmur_grid(tier):
         for f in FILLS:
             for s in SEEDS:
                 yield {"len": n, "fill": f, "seed": s, "seed_default": 1}
+    # inputs far longer than anything a filter element is, past the 2^16-word mark (the library's murmur3 takes seconds here)
+    for n in [65536 * 4 + 11] + ([65536 * 4 - 1, 65536 * 4, 65536 * 8 + 3] if tier == "thorough" else []):
+        yield {"len": n, "fill": "prng:0", "seed": 0xFBA4C795}
 
 
 def seeds():
@@ -362,7 +365,7 @@ SUBCHECKS = [
              rule="same child configuration, batches of 24 generated messages (lengths to 20000, block-edge weighted)"),
     SubCheck("murmur3_grid", o_murmur, cases=cases_murmur_grid, exhaustive=True,
              nontrivial=lambda c, l: c["seed"] != 0,
-             rule="lengths 0..40 (every tail size) x 5 contents x seeds {0,1,0xFBA4C795,2^32-1,2^32,2^40+5,2^64-1}: murmur3 == "
+             rule="lengths 0..40 (every tail size) and 262155 bytes (thorough: also 262143, 262144, 524291) x 5 contents x seeds {0,1,0xFBA4C795,2^32-1,2^32,2^40+5,2^64-1}: murmur3 == "
                   "reference x86_32 (seed mod 2^32); non-trivial = non-zero seed"),
     SubCheck("murmur3_generated", o_murmur, strategy=s_murmur, budget=(4000, 400000),
              nontrivial=lambda c, l: c["seed"] != 0,
